@@ -985,7 +985,7 @@ func (r stack) isNesting() (is bool) {
 
 		// native Stack instance
 		case Stack:
-			is = true
+			is = tv.IsInit()
 
 		// type alias stack instnaces, since
 		// we have no knowledge of them here,
